@@ -59,7 +59,7 @@ BadClause ==
   IF ~AtMostOnce THEN 1 ELSE IF ~InOrder THEN 2 ELSE IF ~OnlySupplied THEN 3
   ELSE IF ~ExactlyOnceIfNoStop THEN 4 ELSE IF ~AllSuppliedIfNoStop THEN 5
   ELSE IF ~NoWorkAfterStop THEN 6 ELSE IF ~ErrorSurfaces THEN 7
-  ELSE IF ~NoHangObs THEN 9 ELSE IF ~NoCrashObs THEN 10 ELSE IF ~EndAfterBegin THEN 11 ELSE 0
+  ELSE IF ~NoHangObs THEN 9 ELSE IF ~NoCrashObs THEN 10 ELSE IF ~EndAfterBegin THEN 11 ELSE IF ~NoOrphanWork THEN 12 ELSE 0
 
 Record ==
   /\ IF TLCGet(tid) < l THEN TLCSet(tid, l) ELSE TRUE
